@@ -323,9 +323,8 @@ Theorem c02_mgr_min_update_regression :
   skipn 10 (mgr_run_case mgr_witness) = [5; 95]
   /\ mgr_prop_case mgr_witness (mgr_run_case mgr_witness) = 0
   (* ... the code before the repair reported 20 / 80, above max(request 5, min 5) of q1: clause 41 *)
-  /\ skipn 10 (mrun_obs false (fst (mgr_decode mgr_witness)) mgr0 (snd (mgr_decode mgr_witness))) = [20; 80]
-  /\ mgr_prop_case mgr_witness
-       (mrun_obs false (fst (mgr_decode mgr_witness)) mgr0 (snd (mgr_decode mgr_witness))) = 41.
+  /\ skipn 10 (mrun_obs false false 2 mgr0 (snd (mgr_decode mgr_witness))) = [20; 80]
+  /\ mgr_prop_case mgr_witness (mrun_obs false false 2 mgr0 (snd (mgr_decode mgr_witness))) = 41.
 Proof. vm_compute. repeat split; reflexivity. Qed.
 Print Assumptions c02_mgr_min_update_regression.
 
@@ -336,8 +335,8 @@ Print Assumptions c02_mgr_min_update_regression.
         the cluster total ---- *)
 From Verif Require Import C02.Mgr_Proofs_Base C02.Mgr_Proofs_Inv C02.Mgr_Proofs_Step.
 
-Theorem c02_mgr_calculators_agree : forall K ops p,
-  let st := mrun K ops in let c := get_calc p st in let tb := kids p (g_quotas st) in
+Theorem c02_mgr_calculators_agree : forall sc K ops p,   (* sc: EnableMinQuotaScale *)
+  let st := mrun sc K ops in let c := get_calc p st in let tb := kids p (g_quotas st) in
   c_tree c = abs tb
   /\ (forall k, c_get k (c_reqLimit c) = match tab_find k tb with Some q => limit_req q | None => 0 end)
   /\ (forall k, c_get k (c_guaranteed c) = match tab_find k tb with Some q => q_guar q | None => 0 end)
@@ -350,14 +349,14 @@ Print Assumptions c02_mgr_calculators_agree.
         path (the cluster total when the path reaches the root — acyclic trees are C15's part)
         and at every level takes redistribution of the level's total among the current figures
         of that level's siblings; the figures themselves are not changed by the refresh ---- *)
-Theorem c02_mgr_refresh_division : forall K ops k mq,
-  let st := mrun K ops in
+Theorem c02_mgr_refresh_division : forall K ops k mq,   (* min-quota scaling off *)
+  let st := mrun false K ops in
   afind k (g_quotas st) = Some mq ->
   let pth := rev (path k st) in
   let top := top_parent pth st in
-  same_figs st (refresh k st)
+  same_figs st (refresh false k st)
   /\ (top = 0 -> c_total (get_calc top st) = g_total st)
-  /\ exists mq', afind k (g_quotas (refresh k st)) = Some mq'
+  /\ exists mq', afind k (g_quotas (refresh false k st)) = Some mq'
                  /\ down pth (c_total (get_calc top st)) st = Some (q_runtime (m_info mq')).
 Proof. exact mgr_refresh_division. Qed.
 Print Assumptions c02_mgr_refresh_division.
@@ -372,7 +371,63 @@ Definition mgr_ex : list Z :=
 Example c02_mgr_nonvacuous :
   skipn 40 (mgr_run_case mgr_ex) = [55; 55; 28; 27; 45]
   /\ mgr_prop_case mgr_ex (mgr_run_case mgr_ex) = 0
-  /\ (let st := mrun 5 (snd (mgr_decode mgr_ex)) in
+  /\ (let st := mrun false 5 (snd (mgr_decode mgr_ex)) in
       rev (path 3 st) = [1; 2; 3] /\ top_parent (rev (path 3 st)) st = 0
       /\ down (rev (path 3 st)) (g_total st) st = Some 28).
+Proof. vm_compute. repeat split; reflexivity. Qed.
+
+(* ---- 14. min-quota scaling (EnableMinQuotaScale; getScaledMinQuota evaluated in exact binary64).
+        Scaling happens only where the total is BELOW the sum of the declared mins ... ---- *)
+From Verif Require Import C02.Mgr_Proofs_Scale C02.Mgr_Proofs_Float.
+
+Theorem c02_no_scaling_when_mins_fit : forall hk T E m, E <= T -> get_scaled hk T E m = m.
+Proof. exact get_scaled_fit. Qed.
+Print Assumptions c02_no_scaling_when_mins_fit.
+
+(* ... and after any history, RefreshRuntime(k) leaves in k's QuotaInfo (hence, by
+   c02_mgr_calculators_agree, in the node of the parent's calculator) the AutoScaleMin
+   getScaledMinQuota(total handed to k's level, sum of the DECLARED mins of k's siblings, k's declared
+   min); whenever those declared mins fit in that total it is k's declared min — so the C02 lower
+   bound is against the declared min.  (Path reaching the root: acyclic trees are C15's part.) *)
+Theorem c02_mgr_refresh_scaled_min : forall K ops k mq,
+  let st := mrun true K ops in
+  afind k (g_quotas st) = Some mq ->
+  top_parent (rev (path k st)) st = 0 ->
+  let st' := refresh true k st in
+  let hk := last_hk (rev (path k st)) (g_hasTotal st) in
+  exists mq', afind k (g_quotas st') = Some mq'
+    /\ m_parent mq' = m_parent mq /\ m_min mq' = m_min mq
+    /\ let T := c_total (get_calc (m_parent mq) st') in
+       let E := esum (m_parent mq) st' in
+       E = esum (m_parent mq) st
+       /\ q_min (m_info mq') = get_scaled hk T E (m_min mq)
+       /\ (E <= T -> q_min (m_info mq') = m_min mq).
+Proof. exact mgr_refresh_scaled_min. Qed.
+Print Assumptions c02_mgr_refresh_scaled_min.
+
+(* c02_scaled_min_le for the float model: when scaling happens, the scaled mins (each one
+   int64(float64(T) * float64(min) / float64(sum)) with every operation rounded to binary64) add up to
+   at most the total, for totals up to 2^51 and sums of mins below 2^53 (beyond that float64(int64)
+   itself rounds; not claimed) *)
+Theorem c02_scaled_min_le : forall T ms,
+  0 < T <= 2 ^ 51 -> (forall m, In m ms -> 0 <= m) -> sumZ ms < 2 ^ 53 -> T < sumZ ms ->
+  sumZ (map (fun m => scaled_min T m (sumZ ms)) ms) <= T.
+Proof. exact scaled_min_sum_le. Qed.
+Print Assumptions c02_scaled_min_le.
+
+(* non-vacuity / regression of seeded/C02-m4: byte-scale mins 100000000001 / 33333333340 /
+   77777777777, total exactly their sum, every sibling asking twice its min, scaling on: every sibling
+   is reported at least its declared min (33333333340 for q2); the float formula applied at equality
+   would give 33333333339 *)
+Definition mgr_scale_ex : list Z :=
+  [103; 7;  3;0;211111111118;0;0;0;0;
+            0;1;0;2;400000000000;100000000001;0;  0;2;0;2;200000000000;33333333340;0;
+            0;3;0;2;300000000000;77777777777;0;
+            2;1;0;200000000002;0;0;0;  2;2;0;66666666680;0;0;0;  2;3;0;155555555554;0;0;0].
+
+Example c02_mgr_scale_nonvacuous :
+  skipn 18 (mgr_run_case mgr_scale_ex) = [100000000001; 33333333340; 77777777777]
+  /\ mgr_prop_case mgr_scale_ex (mgr_run_case mgr_scale_ex) = 0
+  /\ scaled_min 211111111118 33333333340 211111111118 = 33333333339
+  /\ scaled_min 105555555559 33333333340 211111111118 = 16666666669.
 Proof. vm_compute. repeat split; reflexivity. Qed.
